@@ -1,7 +1,7 @@
 (* C12 correspondence: the harness's observations of the real emitters,
    compared with the model and judged by the validators. *)
-From Apko Require Export Base.Prelude Base.C12Lib Generated.C12Oci Model.Oci Model.OciTime Model.OciShlex Model.OciImage
-  Spec.OciSpec Spec.OciTimeSpec Spec.OciShlexSpec Spec.OciImageSpec.
+From Apko Require Export Base.Prelude Base.C12Lib Generated.C12Oci Model.Oci Model.OciTime Model.OciShlex Model.OciImage Model.OciOptions
+  Spec.OciSpec Spec.OciTimeSpec Spec.OciShlexSpec Spec.OciImageSpec Spec.OciOptionsSpec.
 Open Scope string_scope. Open Scope list_scope.
 
 (* one bundle written by BuildIndex: [bc_archs] = architecture keys in the order
@@ -186,3 +186,49 @@ Definition check_index (c : index_case) : list string :=
   tag_if (negb (list_eqb entry_eqb model (xo_manifests c))) "mismatch:index-manifests" ++
   tag_if (negb (list_eqb entry_eqb model model')) "mismatch:model-order-dependent" ++
   tag_if (negb (labels_eqb want_ann (xo_annotations c))) "mismatch:index-annotations".
+
+(* ---- the option layer: command line over configuration ---------------------------------
+   [op_ic]: the configuration (annotations = the configuration file's, vcs-url); [op_cl]: the
+   --annotations map, given [op_times] times; [op_dates], [op_env]: the date options in order
+   and SOURCE_DATE_EPOCH; observed through the real build.New: [oo_err] an option failed,
+   [oo_annotations]/[oo_vcs] the configuration the build works on, [oo_date] the creation time
+   (Unix seconds); through the real emitters on those: [oo_labels] config labels,
+   [oo_manifest] image manifest annotations, [oo_index] index annotations *)
+Record options_case := {
+  op_ic : image_config; op_cl : list (string * string); op_times : nat;
+  op_dates : list date_opt; op_env : option Z;
+  oo_err : bool; oo_annotations : list (string * string); oo_vcs : string; oo_date : Z;
+  oo_labels : list (string * string); oo_manifest : list (string * string); oo_index : list (string * string) }.
+
+Definition emitted_as_model (rfc : Z -> string) (ic : image_config) (date : Z) (emitted : list (string * string)) : bool :=
+  forallb (fun k => option_eqb String.eqb (alookup k emitted) (expected_label rfc ic date k))
+          ([created_key; revision_key; source_key] ++ akeys (ic_annotations ic) ++ akeys emitted).
+
+Definition check_options (c : options_case) : list string :=
+  let cfg := ic_annotations (op_ic c) in
+  let merged := with_annotations_n (op_times c) cfg (op_cl c) (akeys (op_cl c)) in
+  let merged' := with_annotations_n (op_times c) cfg (op_cl c) (rev (akeys (op_cl c))) in
+  let ic' := set_annotations (op_ic c) merged in
+  match declared_date (op_dates c) (op_env c) with
+  | Ok date =>
+      if oo_err c then ["mismatch:options-model-succeeds-impl-fails"]
+      else
+        tag_if (negb (labels_eqb merged (oo_annotations c))) "mismatch:options-annotations" ++
+        tag_if (negb (labels_eqb merged merged')) "mismatch:model-order-dependent" ++
+        tag_if (negb (String.eqb (ic_vcs_url (op_ic c)) (oo_vcs c))) "mismatch:options-vcs-url" ++
+        tag_if (negb (Z.eqb date (oo_date c))) "mismatch:options-date" ++
+        tag_if (negb (emitted_as_model format_rfc3339 ic' date (oo_labels c))) "mismatch:options-labels" ++
+        tag_if (negb (emitted_as_model format_rfc3339 ic' date (oo_index c))) "mismatch:options-index-annotations" ++
+        (* what the property demands of the REAL output *)
+        (if Nat.eqb (op_times c) 0 then []
+         else cmdline_annotations_tags "config-labels" (op_ic c) (op_cl c) (oo_labels c) ++
+              cmdline_annotations_tags "manifest-annotations" (op_ic c) (op_cl c) (oo_manifest c) ++
+              cmdline_annotations_tags "index-annotations" (op_ic c) (op_cl c) (oo_index c)) ++
+        (match op_env c with
+         | Some e => tag_if (Z.leb rfc3339_min e && Z.leb e rfc3339_max &&
+                             negb (denotes (alookup created_key (oo_labels c)) e)) "viol:source-date-epoch-not-the-created-label"
+         | None => []
+         end)
+  | Err => tag_if (negb (oo_err c)) "mismatch:options-model-fails-impl-succeeds"
+  | _ => ["mismatch:model-inconsistent"]
+  end.
